@@ -75,6 +75,7 @@ fn sharded_read_case(touch: bool, p: usize, s: usize) {
     let cache = new_cache();
     let key = Key::new(kfs::KEY_A, kani::any(), kani::any());
     let st = kfs::k();
+    kfs::begin_op(if touch { kfs::OP_SHARDED_TOUCH } else { kfs::OP_SHARDED_GET }, p as i64, s as i64, 0);
     if touch {
         let r = cache.touch(key);
         assert!(r.is_ok(), "KV-C05: touch succeeds");
@@ -156,9 +157,10 @@ fn sharded_write_case(put: bool, p: usize, s: usize, env: u8, fault: bool) {
         kfs::k().fail_at = kani::any();
         kfs::k().fail_errno = kani::any();
         let e = kfs::k().fail_errno;
-        kani::assume(e == kfs::EIO || e == kfs::EACCES || e == kfs::ENOSPC || e == kfs::ESTALE);
+        kani::assume(e == kfs::EIO || e == kfs::EACCES || e == kfs::ENOSPC || e == kfs::ESTALE || e == kfs::EXDEV);
     }
     let from = kfs::path_of(kfs::D_X, 0);
+    kfs::begin_op(if put { kfs::OP_SHARDED_PUT } else { kfs::OP_SHARDED_SET }, p as i64, s as i64, cache.shard_capacity.min(1_000_000) as i64);
     let r = if put { cache.put(key, &from) } else { cache.set(key, &from) };
     let st = kfs::k();
     if !fault {
